@@ -3,8 +3,11 @@ package props
 import (
 	"bytes"
 	"fmt"
+	"io"
 	"net/http"
 	"net/http/httptest"
+	"sync"
+	"time"
 
 	"github.com/vicanso/elton"
 	"github.com/vicanso/pike/cache"
@@ -287,8 +290,107 @@ func c02Core(c *Ctx, name string, threads int, b vsched.Bounds) Sched {
 	}
 }
 
+// c02RealStall: real sockets. The origin sends its headers and part of the body and then goes silent; the location has
+// a 500 ms proxy timeout. Every request — the fetcher, the ones that follow — must be over within seconds.
+func c02RealStall(c *Ctx) {
+	if !c.Want("real-origin-stalls-mid-body") || c.Shard != 3%c.NShards {
+		return
+	}
+	st := c.Stat("real-origin-stalls-mid-body", "enumeration")
+	st.Bounds = "origin behaviours {stalls after the headers, stalls after 1500 of 4000 body bytes, stalls inside a chunk} x 3 sequential GETs + 2 concurrent ones over TCP, location proxyTimeout 500 ms: each exchange ends within 6 s"
+	release := make(chan struct{})
+	stall := func(n int, chunked bool) func(w http.ResponseWriter, r *http.Request) {
+		return func(w http.ResponseWriter, r *http.Request) {
+			conn, buf, err := w.(http.Hijacker).Hijack()
+			if err != nil {
+				return
+			}
+			defer conn.Close()
+			if chunked {
+				fmt.Fprintf(buf, "HTTP/1.1 200 OK\r\nContent-Type: text/plain\r\nCache-Control: max-age=600\r\nTransfer-Encoding: chunked\r\n\r\n%x\r\n", 4000)
+			} else {
+				fmt.Fprintf(buf, "HTTP/1.1 200 OK\r\nContent-Type: text/plain\r\nCache-Control: max-age=600\r\nContent-Length: 4000\r\n\r\n")
+			}
+			buf.Write(bytes.Repeat([]byte("x"), n))
+			buf.Flush()
+			<-release
+		}
+	}
+	mux := http.NewServeMux()
+	mux.HandleFunc("/after-headers", stall(0, false))
+	mux.HandleFunc("/mid-body", stall(1500, false))
+	mux.HandleFunc("/in-chunk", stall(1500, true))
+	mux.HandleFunc("/ok", func(w http.ResponseWriter, r *http.Request) {
+		w.Header().Set("Cache-Control", "no-cache")
+		fmt.Fprint(w, "ok")
+	})
+	origin := httptest.NewServer(mux)
+	defer origin.Close()
+	defer close(release)
+	cfg := &config.PikeConfig{
+		Caches:    []config.CacheConfig{{Name: "c1", Size: 100, HitForPass: "5m"}},
+		Upstreams: []config.UpstreamConfig{{Name: "u", Servers: []config.UpstreamServerConfig{{Addr: origin.URL}}}},
+		Locations: []config.LocationConfig{{Name: "l", Upstream: "u", ProxyTimeout: "500ms"}},
+		Servers:   []config.ServerConfig{{Addr: "127.0.0.1:0", Locations: []string{"l"}, Cache: "c1"}},
+	}
+	env.Silence()
+	env.FreshAll()
+	procEnv = nil
+	if err := env.Apply(cfg); err != nil {
+		c.Violation("real-origin-stalls-mid-body", "harness-apply", err.Error(), nil, nil, nil)
+		return
+	}
+	defer func() { env.FreshAll(); procEnv = nil }()
+	listen := server.Get("127.0.0.1:0").GetListenAddr()
+	get := func(path string) (string, time.Duration) {
+		cl := &http.Client{Timeout: 6 * time.Second, Transport: &http.Transport{DisableKeepAlives: true}}
+		t0 := time.Now()
+		resp, err := cl.Get("http://" + listen + path)
+		if err != nil {
+			if time.Since(t0) >= 6*time.Second {
+				return "no-answer", time.Since(t0)
+			}
+			return "failed", time.Since(t0)
+		}
+		_, rerr := io.ReadAll(resp.Body)
+		resp.Body.Close()
+		if rerr != nil && time.Since(t0) >= 6*time.Second {
+			return "no-answer", time.Since(t0)
+		}
+		return fmt.Sprint(resp.StatusCode), time.Since(t0)
+	}
+	for _, path := range []string{"/after-headers", "/mid-body", "/in-chunk"} {
+		var outs []string
+		for i := 0; i < 3; i++ {
+			o, _ := get(path)
+			outs = append(outs, o)
+		}
+		var wg sync.WaitGroup
+		conc := make([]string, 2)
+		for i := range conc {
+			wg.Add(1)
+			go func(i int) { defer wg.Done(); conc[i], _ = get(path) }(i)
+		}
+		wg.Wait()
+		outs = append(outs, conc...)
+		st.Execs += int64(len(outs))
+		for i, o := range outs {
+			if o == "no-answer" {
+				c.Violation("real-origin-stalls-mid-body", "request-blocks-beyond-proxy-timeout", fmt.Sprintf("origin %s, proxy timeout 500 ms: request %d of %v was not over after 6 s", path, i, outs), nil, map[string]interface{}{"origin": path, "outcomes": outs}, nil)
+				break
+			}
+		}
+	}
+	if o, _ := get("/ok"); o != "200" {
+		c.Violation("real-origin-stalls-mid-body", "healthy-path-not-served", o, nil, nil, nil)
+	}
+	st.States, st.Transitions, st.Nontrivial = st.Execs, st.Execs, st.Execs
+	st.NOutcomes = int(st.Execs)
+}
+
 func init() {
 	Register("C02", func(c *Ctx) {
+		c02RealStall(c)
 		c.Out.Rule = "every schedule (bounded preemptions) x every sequence of fetch outcomes {cacheable, uncacheable, error, proxy timeout, panic} (data choice at each origin call; quick: at most 2 non-cacheable outcomes per run, thorough: unbounded) of N concurrent GETs on one key, optionally with a concurrent purge; oracle = deadlock/livelock detector, entry not left fetching, no parked channel, epilogue requests served; non-trivial = deviating schedule; distinct = per-request observation vectors"
 		c.Out.Assume = []string{"sequentially consistent memory; scheduling points at every lock/rwlock/sync.Map/channel/clock/origin operation"}
 		b := vsched.Bounds{Preempt: 2, Tick: 1, Data: 2, Total: 3}
